@@ -64,9 +64,14 @@ def _refusal_at(ctx: Ctx, f: Func, n: N, refuse=None) -> Optional[Tuple[str, str
     order = {"raise UniqueConstraintError": 0, "raise ValueError": 1}
     e = sorted(rs, key=lambda x: (order.get(x.field, 5), len(x.chain)))[0]
     if e.chain:
+        # name the callees that can refuse (not every call that happens to share the statement: joining or splitting
+        # statements must not rename a finding)
         callee = []
         for c in si.calls_at(n):
-            callee += [g.qualname for g, _ in ctx.env.callees(f, c)]
+            callee += [g.qualname for g, _ in ctx.env.callees(f, c) if any(e2.op == "refuse" for e2 in ctx.fx.summary[g].values())]
+        if not callee:
+            for c in si.calls_at(n):
+                callee += [g.qualname for g, _ in ctx.env.callees(f, c)]
         key = "call " + "/".join(sorted(set(callee))[:3]) + " may refuse"
         return key, f"{e.field} at {e.origin}:{e.line} (`{e.text}`) reached via " + " -> ".join(e.chain)
     a = n.ast
